@@ -44,24 +44,42 @@ def run(ctx, br):
         reqs = reqs[:len(resps)]
     worst = 0
     late_n = 0
-    for q, r in zip(reqs, resps):
+    not_reproduced = 0
+
+    def verdict(q, r):
         over = r.get("elapsed_us", 0) - q["timeout_us"]
-        worst = max(worst, over)
-        why = None
         if r.get("hang"):
-            why = r["hang"]
-        elif over > ALLOW_US:
-            why = "returned %d us after its %d us timeout" % (over, q["timeout_us"])
-        elif r.get("code") != 3:
-            why = "no response arrived in time but the call reported class %s (%s), not TIMED_OUT" % (r.get("code"), r.get("msg"))
-        elif q["transport"] != "http" and r.get("reglen") != 0:
-            why = "registration left behind after the call returned (%s entries)" % r.get("reglen")
+            return r["hang"]
+        if over > ALLOW_US:
+            return "returned %d us after its %d us timeout" % (over, q["timeout_us"])
+        if r.get("code") != 3:
+            return "no response arrived in time but the call reported class %s (%s), not TIMED_OUT" % (r.get("code"), r.get("msg"))
+        if q["transport"] != "http" and r.get("reglen") != 0:
+            return "registration left behind after the call returned (%s entries)" % r.get("reglen")
+        return None
+
+    for q, r in zip(reqs, resps):
+        why = verdict(q, r)
+        if why:
+            # wall-clock measurement on a shared machine: a case that failed is measured again, alone, twice; it is
+            # reported when it fails again (a defect on this path is systematic; scheduling noise is not)
+            again = []
+            for _ in range(2):
+                _, rr, _ = hc.run_lines([os.path.join(vlib.BIN, "vh_reg"), "timing"], [q], timeout=120)
+                again.append(verdict(q, rr[0]) if len(rr) == 1 else "timing harness died")
+            if not any(again):
+                not_reproduced += 1
+                why = None
+        over = r.get("elapsed_us", 0) - q["timeout_us"]
+        if why or over <= ALLOW_US:
+            worst = max(worst, over)
         if why:
             late_n += 1
             ctx.violation("C13 oracle: " + why, {"request": q, "observed": r})
     cov["evaluations"] += len(reqs)
     cov["timing_cases"] = len(reqs)
     cov["timing_failures"] = late_n
+    cov["timing_failures_not_reproduced_alone"] = not_reproduced
     cov["worst_overshoot_us"] = worst
     cov["allowance_us"] = ALLOW_US
     cov["rule"] = ("(1) " + cov["rule"] + " (2) wall clock: Request/Oneway on adapter / NATS (embedded server) / HTTP (httptest) against "
